@@ -260,8 +260,16 @@ func (vc *VC) prelude() string {
 				b.WriteString(" " + fmt.Sprintf(op.f, p, p, p))
 			}
 			b.WriteString("))\n")
+			fallback := "(" + op.un + " x y)"
+			if op.name == "borS" || op.name == "bxorS" {
+				// operands with disjoint bit ranges (x<<k | y with y < 2^k): | and ^ are +
+				for _, k := range []int{56, 48, 40, 32, 24, 16, 8} {
+					p := new(big.Int).Lsh(big.NewInt(1), uint(k)).String()
+					fallback = "(ite (and (>= x 0) (>= y 0) (or (and (= (mod x " + p + ") 0) (< y " + p + ")) (and (= (mod y " + p + ") 0) (< x " + p + ")))) (+ x y) " + fallback + ")"
+				}
+			}
 			b.WriteString("(define-fun " + op.name + " ((x Int) (y Int)) Int (ite (and (<= (- 32768) x) (<= x 32767) (<= (- 32768) y) (<= y 32767)) " +
-				"(let ((u (" + op.name + "16 (ite (< x 0) (+ x 65536) x) (ite (< y 0) (+ y 65536) y)))) (ite (>= u 32768) (- u 65536) u)) (" + op.un + " x y)))\n")
+				"(let ((u (" + op.name + "16 (ite (< x 0) (+ x 65536) x) (ite (< y 0) (+ y 65536) y)))) (ite (>= u 32768) (- u 65536) u)) " + fallback + "))\n")
 		}
 	}
 	return b.String()
@@ -319,7 +327,8 @@ func (vc *VC) freshSort(hint, sort string) *Term {
 
 // define introduces a named constant equal to the given term (keeps terms small).
 func (vc *VC) define(hint string, t *Term) *Term {
-	if len(t.S) < 40 {
+	if len(t.S) < 40 || strings.Contains(t.S, "?") {
+		// short, or mentions a bound variable of a quantifier (named x?N): keep in place
 		return t
 	}
 	n := vc.fresh(hint)
